@@ -142,7 +142,7 @@ func main() {
 		if len(terms) == 0 {
 			return
 		}
-		run.WriteCasesV(fmt.Sprintf("cases_%d.v", start), []string{"Lib.Json", "Gql.Types", "Gql.Value", "Gql.Query", "Gql.Check", "Gql.CheckFed"}, "", "mismatches19_from_sparse", 0, terms)
+		run.WriteCasesV(fmt.Sprintf("cases_%d.v", start), []string{"Lib.Json", "Gql.Types", "Gql.Value", "Gql.Query", "Gql.Check", "Gql.CheckFlat", "Gql.CheckFed"}, "", "mismatches19_from_sparse", 0, terms)
 		terms = nil
 		start = end
 	}
@@ -282,7 +282,17 @@ func main() {
 				run.Hist("gateway-reading-compared")
 			}
 		}
-		terms = append(terms, fmt.Sprintf("(%d, (%s, %s))", idx, gqlgen.CoqCase([]string{gqlgen.CoqSchema(b.Schema)}, c.Data, q.Eff(), queries, runs), view))
+		// Flatten on the parsed query, walked along the schema the way the executor walks it (malformed
+		// directives included: Flatten's refusal must be the model's)
+		flat := "None"
+		if t, ok := gqlgen.FlatView(b, text, q.Vars); ok {
+			flat = "(Some " + t + ")"
+			run.Hist("flatten-tree-compared")
+			if t == "None" {
+				run.Hist("flatten-refuses(malformed directive reached)")
+			}
+		}
+		terms = append(terms, fmt.Sprintf("(%d, (%s, %s, %s))", idx, gqlgen.CoqCase([]string{gqlgen.CoqSchema(b.Schema)}, c.Data, q.Eff(), queries, runs), view, flat))
 		if len(terms) >= shard {
 			flush(idx + 1)
 		}
